@@ -17,7 +17,8 @@ ASSUMPTIONS = [
 ]
 
 RX = {"gpp_c": 3, "gpp_h": 2, "lc_h": 3, "ksp_h": 2, "ppg_h": 3, "ppg_c": 2, "j3pi_h": 2,
-      "d3pi_h": 3, "psi4_h": 2, "lc_c": 1, "gpp1_h": 1, "kkpi_h": 2, "dkpp_h": 3, "etac_c": 2}
+      "d3pi_h": 3, "psi4_h": 2, "lc_c": 1, "gpp1_h": 1, "kkpi_h": 2, "dkpp_h": 3, "etac_c": 2,
+      "lc_h#1": 1, "ksp_h#1": 1, "gpp_c#1": 1, "gpp_h@x": 1, "lc_h@x": 1}
 DYN = ["probeA", "probeB", "probeC", "probeA", "probeB", "bw", "bw_ff", "bw_analytic", "bw_ffonly", "bw_edw", "non_dynamic"]
 
 
